@@ -25,6 +25,9 @@ var LogFiles = []string{
 	"/var/log/syslog",
 }
 
+// maxLogLineSize is the longest log line accepted by the log readers.
+const maxLogLineSize = 64 * 1024 * 1024
+
 // SystemdLog is a simplified systemd json log representation.
 type systemdLog struct {
 	Message string `json:"MESSAGE"`
@@ -42,6 +45,7 @@ func GetApparmorLogs(file io.Reader, profile string) []string {
 	}
 
 	scanner := bufio.NewScanner(file)
+	scanner.Buffer(make([]byte, 0, bufio.MaxScanTokenSize), maxLogLineSize)
 	for scanner.Scan() {
 		line := scanner.Text()
 		if isAppArmorLog.MatchString(line) {
@@ -97,6 +101,7 @@ func GetJournalctlLogs(path string, since string, useFile bool) (io.Reader, erro
 	}
 
 	var jctlRaw []string
+	scanner.Buffer(make([]byte, 0, bufio.MaxScanTokenSize), maxLogLineSize)
 	for scanner.Scan() {
 		line := scanner.Text()
 		if strings.Contains(line, "apparmor") {
